@@ -21,6 +21,8 @@ DRIVER = "props/C12/driver.ml"
 PROGS = {"c12sim": ["props/C12/unit.cpp"]}
 NPERM = 24          # permutations handed to the executors are permutations of range(NPERM) (>= number of items)
 
+if os.environ.get("C12_COV"):      # coverage measurement of the anchored functions (scratch VERIF_BUILD only)
+    V.CXX_VARIANTS["plain"] = ["-O0", "-g0", "--coverage"]
 V.CXX_VARIANTS.setdefault("tsan", ["-O1", "-g", "-fsanitize=thread", "-fno-omit-frame-pointer"])
 
 
